@@ -433,7 +433,9 @@ pub fn gen_c12(rng: &mut Rng, tier: Tier) -> NetProgram {
     // a module may shut itself down during its first start-up stage: its later stages are still declared stages
     if rng.chance(1, 8) {
         let v = rng.usize(nmod);
-        prog.modules[v].start_acts = vec![Act::Shutdown { restart: -1, at: false }];
+        // (for good, or with a restart - also one that is due at once: it runs when the start-up of the simulation is over)
+        let restart = *rng.pick(&[-1i64, -1, 0, 0, 250_000_000]);
+        prog.modules[v].start_acts = vec![Act::Shutdown { restart, at: rng.chance(1, 2) }];
     }
     // an ordinary handler panic somewhere: tear-down still happens once for every module
     if nmod >= 2 && rng.chance(1, 8) {
